@@ -52,7 +52,7 @@ func run(r *core.Run) {
 	debug.SetMaxStack(256 << 20)
 
 	thorough := r.Thorough()
-	w := &worker{r: r, t: newTally()}
+	w := &worker{r: r, t: newTally(), stepCancels: map[string]int{}}
 	if p := os.Getenv("C13_CARRY"); p != "" {
 		if t, err := loadTally(p); err == nil {
 			w.t = t
@@ -61,12 +61,13 @@ func run(r *core.Run) {
 		}
 	}
 	w.lim = limits{
-		softStep: core.Pick(r, 5*time.Second, 15*time.Second),
+		softStep: core.Pick(r, 2*time.Second, 10*time.Second),
+		fastStep: core.Pick(r, 250*time.Millisecond, 1*time.Second),
 		hardStep: core.Pick(r, 15*time.Second, 45*time.Second),
 		softWall: core.Pick(r, 60*time.Second, 120*time.Second),
 		hardWall: core.Pick(r, 120*time.Second, 240*time.Second),
-		softHeap: 1536 << 20,
-		hardRSS:  3 << 30,
+		softHeap: 2560 << 20,
+		hardRSS:  4 << 30,
 	}
 	defer func() { w.t.flush(r) }()
 
